@@ -4,6 +4,6 @@ CONSTANTS
   ModelLens = {}
   Env = {}
   SweepFirst = 1000
-  MaxFields = 48
+  MaxFields = 128
   TruncEveryMax = 100000
 INVARIANTS PlanWellFormed Emit
